@@ -20,10 +20,26 @@ if not os.environ.get("PVMON_NO_FORCE_CACHE"):
 
     _orig_njit = numba.njit
 
+    def _takes_function(fn) -> bool:
+        """Kernels that receive another jitted function as an argument (the refinement loops: `method`) are not
+        cacheable across processes: numba keys the cache index by a weakly referenced Dispatcher type, and a process
+        that loaded an index written by another process cannot save it again ('underlying object has vanished')."""
+        code = getattr(fn, "__code__", None)
+        return bool(code) and "method" in code.co_varnames[: code.co_argcount]
+
     def _njit_cached(*args, **kwargs):
         if len(args) == 1 and callable(args[0]) and not isinstance(args[0], str) and not kwargs:
+            if _takes_function(args[0]):
+                return _orig_njit(args[0])
             return _orig_njit(cache=True)(args[0])
-        kwargs.setdefault("cache", True)
-        return _orig_njit(*args, **kwargs)
+        if "cache" in kwargs:
+            return _orig_njit(*args, **kwargs)
+        inner = _orig_njit(*args, **kwargs)
+        cached = _orig_njit(*args, cache=True, **kwargs)
+
+        def choose(fn):
+            return inner(fn) if _takes_function(fn) else cached(fn)
+
+        return choose
 
     numba.njit = _njit_cached
